@@ -45,12 +45,12 @@ Move(r, t, i) == [op |-> IF i = "" THEN "del" ELSE "move", mode |-> "", repo |->
 Scn(c, s, t, p) == [conf |-> c, src |-> s, tgt |-> t, plan |-> p]
 Conf(par, es) == [parallel |-> par, entries |-> es]
 Pop(repo, f) == {<<repo, t, f[t]>> : t \in {u \in DOMAIN f : f[u] # ""}}
-SeqOf(S) == SelectSeq(NameOrderDef, LAMBDA x : x \in S)
+OrdSeq(S) == SelectSeq(NameOrderDef, LAMBDA x : x \in S)
 
 \* ---------------------------------------------------------------- filters
 T3 == {"v1", "v10", "v2"}
-Lists3(z) == {<<>>} \cup {<<F(SeqOf(a), "group")>> : a \in SUBSET T3}
-               \cup {<<F(SeqOf(a), "group"), F(SeqOf(b), "class")>> : a, b \in SUBSET T3}
+Lists3(z) == {<<>>} \cup {<<F(OrdSeq(a), "group")>> : a \in SUBSET T3}
+               \cup {<<F(OrdSeq(a), "group"), F(OrdSeq(b), "class")>> : a, b \in SUBSET T3}
 FilterScns(z) ==
   {Scn(Conf(0, <<[E0 EXCEPT !.allow = al, !.deny = de]>>), s,
        {<<"r1", "v1", "B">>, <<"r1", "v2", "A">>, <<"r1", "zz", "C">>}, <<Run("once")>>) :
@@ -113,7 +113,7 @@ SameScns(z) ==
 
 \* ---------------------------------------------------------------- registry entries
 R3 == {"r1", "r10", "r2"}
-RLists(z) == {<<>>} \cup {<<F(SeqOf(a), "group")>> : a \in SUBSET R3}
+RLists(z) == {<<>>} \cup {<<F(OrdSeq(a), "group")>> : a \in SUBSET R3}
 RegScns(z) ==
   {Scn(Conf(par, <<[E0 EXCEPT !.type = "registry", !.srepo = "", !.trepo = "", !.rallow = ra, !.rdeny = rd,
                                !.allow = al, !.deny = <<F(<<"v2">>, "class")>>, !.backup = "fullref"]>>),
